@@ -149,6 +149,12 @@ LIN_WITNESSES = [
     ((1, 2, "a"), True), (("a", 2, 3), True), ((1, "b", 3), True), ((NAN, 2, 3), True), ((1, NAN, 3), True),
     ((-INF, 2, 3), True), ((1, INF, 3), True), ((None, 2, 3), True),
 ]
+try:  # non-finite scalars that are numbers but not builtin floats (only if numpy is importable where the analyser runs)
+    import numpy as _np
+
+    LIN_WITNESSES += [((_np.float32("-inf"), 1.0, 3), True), ((1.0, _np.float32("nan"), 3), True), ((_np.float32("inf"), _np.float32("inf"), 2), True)]
+except Exception:  # noqa: BLE001
+    pass
 LOG_EXTRA = [((0, 2, 3), True), ((-1, 2, 3), True), ((0.0, 2.0, 3), True), ((1e-3, 2, 3), False), ((1, 10, 2), False)]
 
 
